@@ -773,6 +773,38 @@ namespace ip {
 		};
 	}
 
+	aux::function<void(aux::packet)> tcp::socket::internal_syn_drop_fun()
+	{
+		std::shared_ptr<aux::sink_forwarder> fwd = m_forwarder;
+		return [fwd](aux::packet pkt)
+		{
+			sink* s = fwd ? fwd->destination() : nullptr;
+			if (s == nullptr) return;
+			static_cast<tcp::socket*>(s)->syn_dropped(std::move(pkt));
+		};
+	}
+
+	void tcp::socket::syn_dropped(aux::packet p)
+	{
+		// a hop dropped the connection attempt. Nothing else would ever send
+		// it again: do it from a timer
+		if (!p.channel) return;
+		p.hops = p.channel->hops[1];
+		p.drop_fun = internal_syn_drop_fun();
+		auto pkt = std::make_shared<aux::packet>(std::move(p));
+		std::shared_ptr<aux::sink_forwarder> fwd = m_forwarder;
+		m_connect_timer.expires_after(chrono::milliseconds(100));
+		m_connect_timer.async_wait([fwd, pkt](boost::system::error_code const& ec)
+		{
+			if (ec) return;
+			sink* dst = fwd->destination();
+			if (dst == nullptr) return;
+			// the attempt may have been cancelled in the meantime
+			if (!static_cast<tcp::socket*>(dst)->m_connect_handler) return;
+			forward_packet(std::move(*pkt));
+		});
+	}
+
 	void tcp::socket::packet_dropped(aux::packet p)
 	{
 		// the connection is gone (end-of-file was read, which drops the
